@@ -640,7 +640,9 @@ fn gen_update_case(rng: &mut Rng, lang: &str, locale: &str) -> (Spec, NOp) {
             }
         }
     }
-    let old = ["ratio", "total", "Rate_1"][rng.below(3) as usize].to_string();
+    // names with non-ASCII cased letters too: the parser resolves names with full Unicode case folding, so a
+    // user typed in another case (`=TAMAÑO*2`) is a user of `tamaño` (seeded change C32b)
+    let old = ["ratio", "total", "Rate_1", "tamaño", "Élan_2"][rng.below(5) as usize].to_string();
     let new = ["factor", "néw", "Zed2"][rng.below(3) as usize].to_string();
     let scope: Option<u32> = if rng.chance(1, 2) { None } else { Some(rng.below(3) as u32) };
     // target scope: same, or any of the other three possibilities
@@ -652,7 +654,7 @@ fn gen_update_case(rng: &mut Rng, lang: &str, locale: &str) -> (Spec, NOp) {
         others[rng.below(others.len() as u64) as usize]
     };
     let change_name = rng.chance(2, 3);
-    let new_name = if change_name { new.clone() } else if rng.chance(1, 4) { old.to_ascii_uppercase() } else { old.clone() };
+    let new_name = if change_name { new.clone() } else if rng.chance(1, 4) { old.to_uppercase() } else { old.clone() };
     let cell_of = |k: u32| format!("{}!${}${}", quote(&sheets[(k % 3) as usize]), ["A", "B"][(k / 3 % 2) as usize], 1 + k % 3);
     // the name itself, then decoys: the old spelling in the other scopes (incl. the target scope), the new
     // spelling in scopes other than the target one
@@ -671,7 +673,7 @@ fn gen_update_case(rng: &mut Rng, lang: &str, locale: &str) -> (Spec, NOp) {
     // users and decoy users on every sheet; the name inside a two-argument call and bare
     for sh in 0..3u32 {
         sp.cells.push((sh, 5, 1, format!("={sum}({old}{sep}1)+{old}")));
-        sp.cells.push((sh, 6, 1, format!("={}*2", if rng.chance(1, 3) { old.to_ascii_uppercase() } else { old.clone() })));
+        sp.cells.push((sh, 6, 1, format!("={}*2", if rng.chance(1, 3) { old.to_uppercase() } else { old.clone() })));
         sp.cells.push((sh, 7, 1, format!("={}!A1+1", quote(&sheets[((sh + 1) % 3) as usize]))));
         if rng.chance(1, 3) {
             sp.cells.push((sh, 8, 1, format!("={new}+0")));
